@@ -87,6 +87,20 @@ CLAIMED = {
         technique="SQL macro -> SMT (sqlglot AST, 3VL, char-vector strings, closed-form calendar) per-path VCs "
                   "discharged by z3/cvc5; model conformance against real DuckDB; replay in real DuckDB",
         design_ref="§2 C08"),
+    "C32": dict(
+        level="proof",
+        text="Exception-flow contracts on the real source: the two DuckDB error mappers are executed symbolically over "
+             "ALL message texts (path-exhaustive; unmodelled string surgery over-approximated by both outcomes) and "
+             "must return a VTL exception on every path; every error('...') text of the SQL macro files and SQL "
+             "templates (extracted each run) must be mapped to the code it names; every DuckDB interaction of "
+             "execute_queries and its callees must sit inside a handler that converts duckdb.Error. Refutations are "
+             "replayed natively (mapper call / end-to-end run through the extracted API.run).",
+        note="Does not prove that the bare ValueError/NotImplementedError/KeyError raise sites inside the transpiler are "
+             "unreachable for semantically valid scripts, nor that the load path (map_duckdb_error callers) is "
+             "complete; a DuckDB failure is assumed to surface only as duckdb.Error from a connection method.",
+        technique="path-exhaustive symbolic execution of the mapper functions + call-site (handler enclosure) contracts "
+                  "over the AST + native mapping of extracted SQL error texts",
+        design_ref="§2 C32"),
     "C22": dict(
         level="proof",
         text="Inter-procedural frame (assigns) contracts over the real source of the API layer, the pandas/CSV loaders, "
